@@ -242,6 +242,10 @@ func checkOrderTaint(c *fw.Ctx) {
 				case strings.HasPrefix(s.Target, "gmsl.") || strings.HasPrefix(s.Target, "(*gmsl.") || strings.HasPrefix(s.Target, "(gmsl."):
 					// a repository function the rule has no summary for
 					c.Undecided(rule, construct, fmt.Sprintf("a sequence with unspecified order (%s) is passed to %s, for which the rule has no summary", s.Why, s.Target))
+				case s.Target == "builtin.copy":
+					// copying keeps the order it is given: the copy is as ordered as its source,
+					// which is judged where it is consumed
+					c.Undecided(rule, construct, "the sequence is copied element by element; the copy was not followed")
 				default:
 					c.Fail(rule, construct, pos, fmt.Sprintf("a sequence with unspecified order (%s) is passed to %s, which is not a canonicaliser (total-order sort), an identity-keyed insertion or an ordering routine: the result may depend on map iteration / input order", s.Why, s.Target))
 				}
@@ -279,7 +283,24 @@ func checkOrderTaint(c *fw.Ctx) {
 				}
 			case "store-field":
 				construct := fmt.Sprintf("%s stores an unordered sequence in field %s", strings.TrimPrefix(name, "gmsl."), s.Target)
-				c.Check(s.Target == "result", rule, construct, pos, "result is a state set", "an unordered sequence is stored in "+s.Target)
+				// (a field of the long-lived resolver is where the reference tree keeps its one state
+				// set; a field of some other record - the working state of one run - is a local
+				// variable by another name, and what is done with it later was not followed)
+				switch {
+				case s.Target == "result":
+					c.Ok(rule, construct, pos, "result is a state set")
+				case func() bool {
+					st, isSt := s.Instr.(*ssa.Store)
+					if !isSt {
+						return false
+					}
+					fa, isFA := st.Addr.(*ssa.FieldAddr)
+					return isFA && strings.HasSuffix(fa.X.Type().String(), "stateResolverV2")
+				}():
+					c.Fail(rule, construct, pos, "an unordered sequence is stored in "+s.Target)
+				default:
+					c.Undecided(rule, construct, "an unordered sequence is stored in "+s.Target+", a field of a record other than the resolver; its later use was not followed")
+				}
 			case "index":
 				// P2: x[0].RoomID()
 				ia := s.Instr.(*ssa.IndexAddr)
@@ -565,6 +586,12 @@ func checkAgreedState(c *fw.Ctx) {
 			continue
 		}
 		conds := stageCondsDeep(*last)
+		if conds != "" && (strings.Contains(conds, "free:") || fw.OpaqueDispatchAny(fn) != "") {
+			// the condition is over a variable of an enclosing routine (the driver is a function
+			// literal or runs its steps through function values): which calls it covers is not known
+			c.Undecided(rule, spec+": the unconflicted state is re-applied after all auth checks, unconditionally", "the re-application is reached under ["+conds+"] inside a step handed over as a function value")
+			continue
+		}
 		c.Check(conds == "", rule, spec+": the unconflicted state is re-applied after all auth checks, unconditionally", c.P.Pos(last.Call.Pos()), "", "the final re-application only happens when ["+conds+"]: a conflicted or auth-difference event with the same key can replace the event all state sets agree on")
 		arg := fw.SigIn(last.Fr, last.Call.Common().Args[1])
 		c.Expect(strings.Contains(arg, "unconflicted") || strings.Contains(arg, "splitConflictedUnconflicted(param:stateResAlgo,param:stateSets)#1"), rule, spec+": what is re-applied is the unconflicted state", c.P.Pos(last.Call.Pos()), arg, "re-applied list is "+arg)
